@@ -38,6 +38,7 @@ K = {
  "f findOverlappingBlocks":("pkg/diff/iterate.go",         "GoCode_Overlap_proofs.v"),
  "g KeyIndices":           ("pkg/slice/slice.go",          "GoCode_KeyIndices_proofs.v"),
  "h encodeObjTypeAndLen":  ("pkg/encoding/packfile/packfile.go", "GoCode_Packfile_proofs.v"),
+ "i childrenFirst":        ("pkg/prune/prune.go",          "GoCode_ChildrenFirst_proofs.v"),
 }
 # (kernel, kind, description, old text, new text)   old must occur exactly once inside the file
 M = [
@@ -117,6 +118,14 @@ M = [
  ("h encodeObjTypeAndLen", "keep", "numBytes++ for += 1", "\t\tnumBytes += 1\n", "\t\tnumBytes++\n"),
  ("h encodeObjTypeAndLen", "keep", "0 < (bits-4)%7", "if (bits-4)%7 > 0 {", "if 0 < (bits-4)%7 {"),
  ("h encodeObjTypeAndLen", "keep", "mask operands swapped", "(uint8(u) & 15)", "(15 & uint8(u))"),
+ ("i childrenFirst", "break", "pendingChildren += 2", "\t\t\t\tpendingChildren[string(p)]++\n", "\t\t\t\tpendingChildren[string(p)] += 2\n"),
+ ("i childrenFirst", "break", "queue used as a stack (LIFO)", "\t\tsum := queue[0]\n\t\tqueue = queue[1:]\n", "\t\tsum := queue[len(queue)-1]\n\t\tqueue = queue[:len(queue)-1]\n"),
+ ("i childrenFirst", "break", "initial queue: pending != 0", "\t\tif pendingChildren[string(sum)] == 0 {\n", "\t\tif pendingChildren[string(sum)] != 0 {\n"),
+ ("i childrenFirst", "break", "parents outside the to-remove set counted too", "\t\t\tif _, ok := toRemove[string(p)]; ok {\n\t\t\t\tpendingChildren[string(p)]++\n\t\t\t\tparents[string(sum)] = append(parents[string(sum)], p)\n\t\t\t}\n", "\t\t\tpendingChildren[string(p)]++\n\t\t\tparents[string(sum)] = append(parents[string(sum)], p)\n"),
+ ("i childrenFirst", "keep", "rename variables", None, [("pendingChildren", "indeg"), ("toRemove", "doomed"), ("queue", "ready")]),
+ ("i childrenFirst", "keep", "++ written as += 1", "\t\t\t\tpendingChildren[string(p)]++\n", "\t\t\t\tpendingChildren[string(p)] += 1\n"),
+ ("i childrenFirst", "keep", "append to result after the inner loop", "\t\tresult = append(result, sum)\n\t\tfor _, p := range parents[string(sum)] {\n\t\t\tpendingChildren[string(p)]--\n\t\t\tif pendingChildren[string(p)] == 0 {\n\t\t\t\tqueue = append(queue, p)\n\t\t\t}\n\t\t}\n", "\t\tfor _, p := range parents[string(sum)] {\n\t\t\tpendingChildren[string(p)]--\n\t\t\tif pendingChildren[string(p)] == 0 {\n\t\t\t\tqueue = append(queue, p)\n\t\t\t}\n\t\t}\n\t\tresult = append(result, sum)\n"),
+ ("i childrenFirst", "keep", "len(queue) != 0", "for len(queue) > 0 {", "for len(queue) != 0 {"),
 ]
 def sh(cmd, cwd=None, timeout=900):
     t0 = time.time()
